@@ -1,4 +1,6 @@
 #![warn(missing_docs)]
+// `nomt_verif` is a verification-only cfg passed with `--cfg`; it is not a cargo feature.
+#![allow(unexpected_cfgs)]
 
 //! A Nearly-Optimal Merkle Trie Database.
 
@@ -51,6 +53,10 @@ mod seglog;
 mod store;
 mod sys;
 mod task;
+
+/// Verification hooks (only with `--cfg nomt_verif`).
+#[cfg(nomt_verif)]
+pub mod verif;
 
 mod io;
 
@@ -309,6 +315,8 @@ impl<T: HashAlgorithm> Nomt<T> {
         // We must take the access guard before instantiating the rollback delta,
         // because it creates a read transaction and any commits or rollbacks will block
         // indefinitely for us to finish.
+        #[cfg(nomt_verif)]
+        crate::verif::point("yield", "begin_session.before_read_lock");
         let access_guard = params
             .take_global_guard
             .then(|| RwLock::read_arc(&self.access_lock));
@@ -325,6 +333,8 @@ impl<T: HashAlgorithm> Nomt<T> {
         let prev_root = live_overlay
             .parent_root()
             .unwrap_or_else(|| self.root().into_inner());
+        #[cfg(nomt_verif)]
+        crate::verif::point("lin", "begin_session.locked");
 
         Session {
             store,
@@ -356,7 +366,11 @@ impl<T: HashAlgorithm> Nomt<T> {
             return Ok(());
         }
 
+        #[cfg(nomt_verif)]
+        crate::verif::point("yield", "rollback.before_write_lock");
         let _write_guard = self.access_lock.write();
+        #[cfg(nomt_verif)]
+        crate::verif::point("lin", "rollback.locked");
 
         let Some(rollback) = self.store.rollback() else {
             anyhow::bail!("rollback: not enabled");
@@ -676,7 +690,11 @@ impl FinishedSession {
     /// The changeset may be invalidated if another competing session, overlay, or rollback was
     /// committed.
     pub fn commit<T: HashAlgorithm>(self, nomt: &Nomt<T>) -> Result<(), anyhow::Error> {
+        #[cfg(nomt_verif)]
+        crate::verif::point("yield", "commit.before_write_lock");
         let _write_guard = self.take_global_guard.then(|| nomt.access_lock.write());
+        #[cfg(nomt_verif)]
+        crate::verif::point("lin", "commit.locked");
 
         {
             let mut shared = nomt.shared.lock();
@@ -688,6 +706,8 @@ impl FinishedSession {
                 );
             }
             shared.root = Root(self.merkle_output.root);
+            #[cfg(nomt_verif)]
+            crate::verif::point("lin", "commit.root_swapped");
             shared.last_commit_marker = None;
         }
 
@@ -744,6 +764,8 @@ impl FinishedSession {
                 );
             }
             shared.root = Root(self.merkle_output.root);
+            #[cfg(nomt_verif)]
+            crate::verif::point("lin", "commit.root_swapped");
             shared.last_commit_marker = None;
         }
 
@@ -785,7 +807,11 @@ impl Overlay {
             .collect();
         let rollback_delta = self.rollback_delta().map(|delta| delta.clone());
 
+        #[cfg(nomt_verif)]
+        crate::verif::point("yield", "overlay_commit.before_write_lock");
         let _write_guard = nomt.access_lock.write();
+        #[cfg(nomt_verif)]
+        crate::verif::point("lin", "overlay_commit.locked");
 
         let marker = self.mark_committed();
 
@@ -799,6 +825,8 @@ impl Overlay {
                 );
             }
             shared.root = root;
+            #[cfg(nomt_verif)]
+            crate::verif::point("lin", "overlay_commit.root_swapped");
             shared.last_commit_marker = Some(marker);
         }
 
@@ -857,6 +885,8 @@ impl Overlay {
                 );
             }
             shared.root = root;
+            #[cfg(nomt_verif)]
+            crate::verif::point("lin", "overlay_commit.root_swapped");
             shared.last_commit_marker = Some(marker);
         }
 
